@@ -60,6 +60,12 @@
 //     order and with which arguments" is part of the translated meaning; calls
 //     listed under "pure" are opaque values that are not traced; a call to a
 //     translated function that itself has opaque parameters is opaque too;
+//   - calls listed under "fn" are opaque *functions*: one parameter
+//     `f_<callee> : A1 → … → R` per callee, applied to the call's arguments of
+//     translatable type (abstract arguments such as ctx are dropped), so which
+//     value is handed to the callee is part of the translated meaning (a
+//     database look-up is a function of the identifier it is asked for); with
+//     "trace" the call is also recorded unless it is listed under "pure";
 //   - calls listed under "ignore" (mutex operations, logging, metrics) are
 //     dropped; methods listed under "identity" return their receiver;
 //   - "recv_nonnil" models a pointer receiver as the struct itself (the
@@ -120,6 +126,10 @@ type TrFunc struct {
 	// Pure lists printed callee expressions whose calls are opaque *values*
 	// that are not recorded in the trace (getters such as t.UnixNano).
 	Pure []string `json:"pure,omitempty"`
+	// Fn lists printed callee expressions whose calls become applications of
+	// one function parameter `f_<name>` (per callee) to the arguments of
+	// translatable type: the result depends on those arguments only.
+	Fn []string `json:"fn,omitempty"`
 }
 
 type trSpecFile struct {
@@ -1093,6 +1103,32 @@ func (c *fctx) call(x *ast.CallExpr) ex {
 				return ex{code: "(Option.join " + r.code + ")", partial: true}
 			}
 			return ex{code: r.code, partial: true}
+		}
+		return r
+	}
+	// "fn": an applied function parameter, shared by the call sites of that callee
+	if c.matches(c.spec.Fn, x) {
+		name := "f_" + sanitize(lastName(c.show(x.Fun)))
+		var xs []ex
+		var sig []string
+		for _, a := range x.Args {
+			if lt := c.t.leanType(c.typeOf(a)); lt != "" {
+				xs, sig = append(xs, c.expr(a)), append(sig, lt)
+			}
+		}
+		decl := "(" + name + " : " + strings.Join(append(sig, c.t.valType(c.typeOf(x))), " → ") + ")"
+		dup := false
+		for _, o := range c.opaque {
+			if dup = dup || o == decl; o != decl && strings.HasPrefix(o, "("+name+" : ") {
+				fail("fn %s is applied at two different types", name)
+			}
+		}
+		if !dup {
+			c.opaque = append(c.opaque, decl)
+		}
+		r := c.bindN(xs, func(s []string) string { return "(" + strings.Join(append([]string{name}, s...), " ") + ")" })
+		if c.trace && !c.matches(c.spec.Pure, x) {
+			r.code = "«call:" + c.traceEntry(x) + "»" + r.code
 		}
 		return r
 	}
